@@ -108,7 +108,7 @@ def linked_check(ctx, case):
 
 
 def run(R):
-    R.hyp("linked-programs", genmod.modules_case(n_inputs=0), linked_check, examples=R.pick(80, 1500))
+    R.hyp("linked-programs", genmod.modules_case(n_inputs=0), linked_check, examples=R.pick(80, 500))
     for sh in ("star", "diamond", "chain3"):
         R.require("linked-program:" + sh)
     R.hyp("all-generators", allgen.any_case(n_inputs=0), check, examples=R.pick(300, 6000), shrink="ast")
